@@ -210,7 +210,7 @@ def extra_case(rnd):
     BYYEARDAY / BYWEEKNO together with BYMONTH / BYMONTHDAY / BYDAY, mixed ordinal and plain BYDAY, BYMONTH / BYDAY under MINUTELY / SECONDLY,
     sub-daily steps of more than a day"""
     kind = rnd.choice(['wly_pos', 'dly_pos', 'hly_pos', 'yly_yd_mon', 'yly_yd_md', 'yly_wk_dow_mon', 'yly_wk_pos', 'yly_dow_pos', 'mly_md_pos', 'yly_md_dow',
-                       'yly_yd_dow', 'mly_ord_plain', 'Mly_mon', 'Sly_dow', 'big_inter', 'yly_mon_dow_pos'])
+                       'yly_yd_dow', 'mly_ord_plain', 'Mly_mon', 'Sly_dow', 'big_inter', 'yly_mon_dow_pos', 'yly_wk', 'yly_wk'])
     y = rnd.choice(year_types() + [1999, 2000, 2024, 2037])
     m = rnd.randint(1, 12); d = rnd.randint(1, dim(y, m)); dd = D.date(y, m, d)
     tod = (rnd.randint(0, 23), rnd.choice([0, 15, 30, 59]), rnd.choice([0, 30, 59]))
@@ -233,6 +233,18 @@ def extra_case(rnd):
         iso = dd.isocalendar()
         if iso[0] != y: return extra_case(rnd)
         r = blank('YEARLY', 1); r['wk'] = [iso[1]]; r['dow'] = [[0, dd.weekday() + 1]]; r['mon'] = [m]; ds = (y, m, d)
+    elif kind == 'yly_wk':
+        # the last weeks of the year (53, -1, -2, 52) and the first, every year, followed across both kinds of 53-week years
+        # (those that begin on a Thursday and the leap years that begin on a Wednesday)
+        wk = rnd.choice([53, 53, -1, -1, -2, 52, 1, -53, -52])
+        yy = rnd.choice([1908, 1936, 1964, 1992, 2020, 2048, 1903, 1914, 1925, 1931, 1942, 1998, 2004, 2009, 2015, 2026]) if wk in (53, -53) or rnd.random() < 0.5 else rnd.randint(1902, 2040)
+        nwk = D.date(yy, 12, 28).isocalendar()[1]
+        w = wk if wk > 0 else nwk + wk + 1
+        if w < 1 or w > nwk: return extra_case(rnd)
+        wds = sorted(rnd.sample(range(1, 8), rnd.randint(1, 4)))
+        x = D.date.fromisocalendar(yy, w, wds[0])
+        r = blank('YEARLY', 1); r['wk'] = [wk]; r['dow'] = [[0, v] for v in wds]; ds = (x.year, x.month, x.day)
+        if rnd.random() < 0.3: ds = ds + tod
     elif kind == 'yly_wk_pos':
         mon1 = D.date.fromisocalendar(y, 1, 1)                       # Monday of ISO week 1, may lie in the December before
         r = blank('YEARLY', 1); r['wk'] = [1]; r['dow'] = [[0, 1], [0, 2], [0, 3]]; r['pos'] = [1]; ds = (mon1.year, mon1.month, mon1.day)
